@@ -559,6 +559,9 @@ func runC12(c *Ctx) {
 	}
 	exhaustiveSwitches(c, r4, fns)
 	valueKindExhaustive(c, r4, p.Func("ast.(*Value).String"))
+
+	r5 := c.Rule("R5", "the query printers never write two name-like tokens without a separator", 40)
+	tokenSeparationRule(c, r5, []string{"FormatQueryDocument"})
 }
 
 // valueKindExhaustive: the kind switch of fn has a case for every declared ValueKind constant.
@@ -661,6 +664,9 @@ func runC13(c *Ctx) {
 
 	r5 := c.Rule("R5", "the loader infers default roots exactly when the formatter may have omitted the schema block", 3)
 	rootInferenceRule(c, r5)
+
+	r6 := c.Rule("R6", "the schema printers never write two name-like tokens without a separator", 40)
+	tokenSeparationRule(c, r6, []string{"FormatSchema", "FormatSchemaDocument"})
 }
 
 // blockDelimiterRule: in every function that writes the `"""` delimiter, every other string written between the
